@@ -197,7 +197,7 @@ def cases(c):
                     'maxlags': gen.pick(rng, [None, 0, NN - 1, int(rng.integers(0, NN))]),
                     'list': bool(rng.integers(0, 2)), 'i': i})
         if i % 6 == 1 and not cx and not cy:
-            out[-1]['variant'] = gen.NARROW[(i // 6) % len(gen.NARROW)]      # wav / ADC samples in a narrow integer type
+            out[-1]['variant'] = (gen.NARROW + ('bool',))[(i // 6) % (len(gen.NARROW) + 1)]      # wav / ADC samples in a narrow integer type, or 0/1 flags
         gen.layout_variant(out[-1], i)
     # data matrices
     for N in range(2, (10 if c.tier == 'quick' else 20)):
